@@ -9,12 +9,16 @@ from . import tlc
 from .tlc import MachineryError
 
 SM = {"C01", "C02", "C03", "C04", "C13"}
+ROBOT = {"C05", "C06", "C07", "C10", "C11"}
 
 
 def dispatch(prop, tier):
     if prop in SM:
         from . import sm_check
         return sm_check.check(prop, tier)
+    if prop in ROBOT:
+        from . import robot_check
+        return robot_check.check(prop, tier)
     raise MachineryError("no check for %s" % prop)
 
 
@@ -26,6 +30,9 @@ def main(argv):
             if mod == "MagicSM":
                 from . import sm_check
                 return sm_check.replay(argv[1])
+            if mod == "MagicRobot":
+                from . import robot_check
+                return robot_check.replay(argv[1])
             raise MachineryError("cannot replay module %s" % mod)
         prop = argv[0]
         tier = argv[1] if len(argv) > 1 else os.environ.get("VERIF_TIER", "quick")
